@@ -262,6 +262,34 @@ where
             picks.iter().enumerate().map(|(j, &p)| (if j == 0 { c.miss } else if j % 2 == 1 { NearMiss::OnePriority } else { NearMiss::OneRemoved }, p)).collect()
         };
         for (miss, pick) in variants {
+            if miss == NearMiss::OneRemoved || miss == NearMiss::OnePriority {
+                // replaced in place: a fresh item with the same priority is pushed first and the old one
+                // removed afterwards, so that the fresh one lands in the recycled slot (and, mostly, at the
+                // same heap position): index tables, length, first and last slots all agree with the source
+                let mut v2 = ib.q.clone();
+                let fresh = s.m.keys().next_back().map_or(0, |m| m + 1).max(c.universe);
+                v2.push(Key::new(fresh, 0), Prio::new(elems[pick].2));
+                v2.remove(&elems[pick].0);
+                stats.hit("eq_near_miss");
+                if v2.snapshot().heap == ib.q.snapshot().heap {
+                    stats.hit("eq_near_miss_same_tables");
+                }
+                if a == &v2 || &v2 == a || !(a != &v2) || v2.eq_q(&ib.q) || ib.q.eq_q(&v2) {
+                    return Err(fail(
+                        "different_content_equal",
+                        format!(
+                            "queues of {} pairs of which one holds item {} in place of {:?} (pushed first, then the other removed) compare equal (a==v {} v==a {} v==b {} b==v {})",
+                            n,
+                            fresh,
+                            elems.get(pick),
+                            a == &v2,
+                            &v2 == a,
+                            v2.eq_q(&ib.q),
+                            ib.q.eq_q(&v2)
+                        ),
+                    ));
+                }
+            }
             let mut vq = ib.q.clone();
             let applied = match miss {
                 NearMiss::OnePriority => {
